@@ -204,6 +204,69 @@ def _task(t):
     return {"evals": evals, "viols": list(viols.values()), "outcomes": outcomes, "key": repr(t)}
 
 
+def _noread_task(t):
+    """A client that sends a huge rejected request and never reads the (equally huge, because echoed) error reply:
+    the worker must get out of handle() regardless - it may not sit in a blocking write."""
+    import socket
+    import struct
+    import threading
+    import time
+    wi, size = t
+    kind, kw = WORKERS[wi]
+    kw = dict(kw)
+    kw["limit_request_line"] = 0
+    app = App()
+    b = bench.Bench(kind, kw, app)
+    viols = []
+    try:
+        for label, data in (("four-token-line", b"GET /" + b"a" * size + b" x HTTP/1.1\r\nHost: h\r\n\r\n"),
+                            ("bad-version", b"GET /" + b"a" * 20 + b" HTTP/1." + b"9" * size + b"\r\n\r\n"),
+                            ("bad-method", b"G" * size + b"(T / HTTP/1.1\r\n\r\n")):
+            s, c = socket.socketpair()
+            # a send that cannot make progress for LIMIT seconds fails instead of hanging the checker for good
+            LIMIT = 4.0
+            s.setsockopt(socket.SOL_SOCKET, socket.SO_SNDTIMEO, struct.pack("ll", int(LIMIT), 0))
+            th = threading.Thread(target=lambda: c.sendall(data), daemon=True)
+            th.start()
+            app.calls = []
+            t0 = time.time()
+            o = b._serve(s, None, PEER_TCP)
+            took = time.time() - t0
+            th.join(5)
+            v = None
+            if took >= LIMIT - 0.5:
+                v = ("worker-blocked-writing-error-reply", "%s of %d bytes, client does not read: handle() returned only after %.1f s (a blocked send)" % (label, size, took))
+            elif o.exc:
+                v = ("exception-escaped-handle", o.exc)
+            elif app.calls:
+                v = ("app-called-for-unacceptable-request", "%r" % app.calls[:1])
+            elif o.close_calls < 1:
+                v = ("server-did-not-close", "handle() returned without closing the client socket")
+            for x in (s, c):
+                try:
+                    x.close()
+                except OSError:
+                    pass
+            if v:
+                viols.append(violation(v[0] + ":" + kind, "worker=%s limit_request_line=0 %s: %s" % (kind, label, v[1]),
+                                       {"noread": [wi, size]}))
+                break
+            app.calls = []
+            o2 = b.connection(PLAIN, peer=PEER_TCP)
+            if not (o2.exc is None and len(app.calls) == 1 and o2.wire.startswith(b"HTTP/1.1 200 OK\r\n")):
+                viols.append(violation("follow-up-request-not-served:" + kind, "after the unread huge error reply a plain request got %r" % o2.wire[:60], {"noread": [wi, size]}))
+                break
+    finally:
+        b.close()
+    return {"evals": 3, "viols": viols, "outcomes": {"noread": 3}, "key": repr(("N",) + tuple(t))}
+
+
+def _dispatch(t):
+    if t[0] == "N":
+        return _noread_task(t[1:])
+    return _task(t)
+
+
 def kind_of_worker(wi):
     return WORKERS[wi][0]
 
@@ -235,8 +298,11 @@ def run(ctx):
                     tasks.append((wi, "mustreject", "reset-after-read", "tcp", shard))
             elif ctx.thorough:
                 tasks.append((wi, "mutations", "halfclose", "tcp", shard))
+    for wi in range(3):
+        for size in (700000, 3000000):
+            tasks.append(("N", wi, size))
     random.Random(ctx.seed).shuffle(tasks)
-    res = par.pmap(_task, tasks)
+    res = par.pmap(_dispatch, tasks)
     res.sort(key=lambda r: r["key"])
     outcomes = {}
     for r in res:
@@ -264,6 +330,9 @@ def run(ctx):
 
 
 def replay(case):
+    if "noread" in case:
+        r = _noread_task(tuple(case["noread"]))
+        return r["viols"][0] if r["viols"] else None
     kind, kw = WORKERS[case["worker"]]
     kw = dict(kw)
     proxy_mode = case["gen"] == "proxy"
